@@ -383,6 +383,22 @@ def c05_r2(ctx: Ctx, rule):
                 isinstance(x, ast.Subscript) and isinstance(x.value, ast.Attribute) and x.value.attr == mm for x in ast.walk(node.test)):
             guards.append((s, text, node))
     if len(guards) != 1:
+        # a guard that raises but no longer consults the live multimap?
+        stale = []
+        for n in walk_function(fi.node):
+            if isinstance(n, ast.If) and any(isinstance(x, ast.Raise) for x in ast.walk(n)) and any(isinstance(x, ast.Compare) and isinstance(x.ops[0], ast.In) for x in ast.walk(n.test)):
+                in_loop = any(isinstance(l, ast.For) and any(x is n for x in ast.walk(l)) for l in walk_function(fi.node))
+                reads_live = any(isinstance(x, ast.Subscript) and isinstance(x.value, ast.Attribute) and x.value.attr == mm for x in ast.walk(n.test))
+                if in_loop and not reads_live and any("value" in norm(x) for x in ast.walk(n) if isinstance(x, ast.Compare)):
+                    stale.append(n)
+        if len(guards) == 0 and len(stale) == 1:
+            n = stale[0]
+            for a in sorted(formal, key=lambda x: x.local):
+                res.ob("formal %s: guard `%s` consults the live attribute map: False" % (a.s, norm(n.test)[:50]))
+            res.fail(rule.id, "guard-not-live", ctx.loc(norm_q, n),
+                     "the single-value guard `%s` does not read %s[attr] in the iteration that stores: it decides on a snapshot taken before the loop" % (norm(n.test)[:60], mm),
+                     "one call supplying two different values for a formal attribute the record did not hold before ([(prov:time, t1), (prov:time, t2)]) stores both")
+            return res
         raise AnalysisError("cannot identify the single-value guard in %s (found %d)" % (short(norm_q), len(guards)))
     gset, gtext, gnode = guards[0]
     for a in sorted(formal, key=lambda x: x.local):
